@@ -41,7 +41,12 @@ FORMS = ("function", "self", "cls", "class_init", "class_init_nested_before", "c
          # a class whose interface is its attributes (annotated or plain assignments), documented by :cvar lines
          "class_attrs",
          # a class merged with a static method of its own (no receiver argument)
-         "class_static_merge")
+         "class_static_merge",
+         # a plain function whose second / third positional parameters are *called* cls and self (ordinary parameters there)
+         "function_recv")
+RECV_POS = ["s", "cls", "self"]
+for _d in (ANN, DEFAULTS, DOC_DEFAULTS, ANN_X, DEFAULTS_X, DOC_TYPE_ALT):
+    _d["cls"], _d["self"] = _d["b"], _d["e"]
 # the class + __init__ form in richer surroundings: a nested helper class with its own __init__ before / after the
 # outer __init__; a module (searched by class name) whose earlier class has a name that is a suffix of the wanted one
 HELPER = "    class Helper(object):\n        def __init__(self, key, value=2):\n            self.key = key\n\n"
@@ -80,12 +85,14 @@ def build_cases(tier):
                                 continue
                             if (form.startswith("class_init_") or form.startswith("live_")) and tier == "quick" and ann == "alt":
                                 continue
+                            if form == "function_recv" and p < 2:
+                                continue  # identical to the plain function
                             if form == "class_attrs" and not (d == p and all(kwmask) and not kwargs and p + q > 0):
                                 continue  # every attribute holds a value; an attribute-less class has no interface
                             cases.append((p, d, q, kwmask, kwargs, ann, style, sub, order, form, 0))
                             # docstring states a (falsy) default that differs from the signature's: documented wins
                             has_sig_default = any((i < p and i >= p - d) or (p <= i < p + q and kwmask[i - p]) for i in sub)
-                            if has_sig_default and order == "sig" and form != "class_attrs" and (tier == "thorough" or (style == "rest" and ann != "alt")):
+                            if has_sig_default and order == "sig" and form not in ("class_attrs", "function_recv") and (tier == "thorough" or (style == "rest" and ann != "alt")):
                                 cases.append((p, d, q, kwmask, kwargs, ann, style, sub, order, form, 1))
                             if order == "sig" and ann != "alt" and form in ("function", "class_init", "live_function", "class_static_merge") and \
                                     (tier == "thorough" or style == "rest"):
@@ -100,6 +107,7 @@ def render(case):
     p, d, q, kwmask, kwargs, ann, style, sub, order, form, docdef = case
     variant, docdef = docdef, docdef == 1
     ANN, DEFAULTS = (ANN_X, DEFAULTS_X) if variant == 2 else (globals()["ANN"], globals()["DEFAULTS"])
+    POS = RECV_POS if form == "function_recv" else globals()["POS"]
     names = POS[:p] + KW[:q] + (["kwargs"] if kwargs else [])
     sig_has_default = set(POS[p - d:p] if d else []) | set(n for j, n in enumerate(KW[:q]) if kwmask[j])
 
@@ -136,7 +144,7 @@ def render(case):
     doc_types = {}
     lines = []
     live = form.startswith("live_")
-    form = {"live_function": "function", "live_class_init": "class_init"}.get(form, form)
+    form = {"live_function": "function", "live_class_init": "class_init", "function_recv": "function"}.get(form, form)
     ind = "        " if form != "function" else "    "
     if style == "rest":
         for n in documented:
@@ -224,7 +232,7 @@ def parse_case(case, src):
     if form == "live_class_init":
         return parse.class_(live_object(src, "K"), merge_inner_function="__init__")
     tree = ast.parse(src)
-    if form == "function":
+    if form in ("function", "function_recv"):
         return parse.function(tree.body[0])
     if form in ("self", "cls"):
         fn = [n for n in tree.body[0].body if isinstance(n, ast.FunctionDef)][0]
@@ -243,7 +251,7 @@ def python_view(case, src):
 
     ns = {"Optional": typing.Optional, "Union": typing.Union}
     exec(compile(src, "<c07>", "exec"), ns)
-    form = {"live_function": "function", "live_class_init": "class_init"}.get(case[9], case[9])
+    form = {"live_function": "function", "live_class_init": "class_init", "function_recv": "function"}.get(case[9], case[9])
     if form == "class_attrs":
         return [(n, "ATTRIBUTE", v) for n, v in ns["K"].__dict__.items() if not n.startswith("__")]
     if form == "class_static_merge":
@@ -255,8 +263,8 @@ def python_view(case, src):
         obj = obj.__func__
     sig = inspect.signature(obj)
     out = []
-    for n, prm in sig.parameters.items():
-        if n in ("self", "cls"):
+    for i, (n, prm) in enumerate(sig.parameters.items()):
+        if n in ("self", "cls") and i == 0 and form != "function":
             continue
         out.append((n, prm.kind.name, None if prm.default is prm.empty else prm.default))
     return out
@@ -320,6 +328,9 @@ class C07(core.Check):
         got_names = list(ir["params"].keys())
         want_names = [e[0] for e in exp]
         sites.append(site(got_names == want_names, dict(base, field="names"), fail="names", got=got_names))
+        if form in ("function", "function_recv", "self", "cls", "live_function"):
+            want_type = {"self": "self", "cls": "cls"}.get(form, "static")
+            sites.append(site(ir.get("type") == want_type, dict(base, field="function_type", want=want_type), fail="function_type", got=ir.get("type")))
         for pos, (name, annot, dsrc) in enumerate(exp):
             if name not in ir["params"]:
                 continue
